@@ -102,6 +102,12 @@ example : runFrom [relab] .discobrackets {} none (readExport {} (exA ++ ['\n'] +
     .ok ("(TOP(NP(D 1)(N 2)))\tthe dog\n(TOP(N 1))\tit\n".toList ++ "(TOP(ADV 1))\tnow\n".toList) :=
   run_export_append [relab] .discobrackets {} {} exA exB _ _ (by decide) (by decide +kernel) rfl exA_run exB_run
 
+/-- `runFrom_append` on two lists of sentences with a step that drops trees -/
+example : runFrom [dropSmall, relab] .brackets {} none
+      (.ok ([(1, TT.Props.C18.exTree), (2, TT.Props.C18.exU)] ++ [(3, leaf 1 { label := "X".toList, word := some "x".toList }), (4, TT.Props.C18.exU)])) =
+    .ok ("(TOP(A a)(B b))\n(TOP(N it)(ADV now))\n".toList ++ "(TOP(N it)(ADV now))\n".toList) :=
+  runFrom_append _ _ _ _ _ _ _ (by decide) (by decide +kernel) (by decide +kernel)
+
 /-- `hc` cannot be dropped: with `continuous` the ids of the second treebank are shifted, and export output shows the ids
     (`a` = one empty sentence, `b` = `exB`: the third text is not the concatenation of the first two) -/
 example : runFrom [] .export {} none (readExport { continuous := true } ("#BOS 5\n#EOS 5".toList ++ ['\n'])) = .ok "#BOS 1\n#EOS 1\n".toList ∧
